@@ -6,9 +6,11 @@ package main
 
 import (
 	"fmt"
+	"math"
 	"math/big"
 	"regexp"
 	"sort"
+	"strconv"
 	"strings"
 	"unicode/utf8"
 )
@@ -811,4 +813,143 @@ func (in *inst) hasShortCircuit() bool {
 		return false
 	}
 	return f(in.root)
+}
+
+// ---- KF-C08-2: the alternative oracle "arithmetic is done in IEEE-754 doubles and the quotient
+// 0 / negative (and a power of it) keeps its sign: negative zero, printed as -0". The shadow
+// evaluator repeats the reference evaluation in float64 with exactly that deviation: + and - as
+// IEEE, the results of *, %, unary minus and abs normalised to +0 (what the repaired tree does),
+// / and ^ not.
+
+type sval struct {
+	t byte
+	f float64
+	b bool
+	s string
+	l []int64
+}
+
+func (v sval) String() string {
+	switch v.t {
+	case 'i':
+		return strconv.FormatFloat(v.f, 'f', -1, 64)
+	case 'b':
+		if v.b {
+			return "T"
+		}
+		return "F"
+	case 's':
+		return v.s
+	}
+	return val{t: 'l', l: v.l}.String()
+}
+
+type shadow struct {
+	leaves  []leaf
+	negZero bool // a division or power produced negative zero
+}
+
+func isNegZero(f float64) bool { return f == 0 && math.Signbit(f) }
+
+func (e *shadow) eval(n *node, base int) sval {
+	switch n.kind {
+	case 'a':
+		v := e.leaves[base].v
+		return sval{t: v.t, f: float64(v.i), b: v.b, s: v.s, l: v.l}
+	case 'u':
+		x := e.eval(n.k[0], base)
+		if n.op == "-" {
+			return sval{t: 'i', f: -x.f + 0}
+		}
+		return sval{t: 'b', b: !x.b}
+	case 'f':
+		x := e.eval(n.k[0], base)
+		switch n.op {
+		case "abs":
+			return sval{t: 'i', f: math.Abs(x.f)}
+		case "length":
+			if x.t == 's' {
+				return sval{t: 'i', f: float64(utf8.RuneCountInString(x.s))}
+			}
+			return sval{t: 'i', f: float64(len(x.l))}
+		}
+		return sval{t: 's', s: strings.ToUpper(x.s)}
+	case 'c':
+		b1 := base + n.k[0].nl
+		if e.eval(n.k[0], base).b {
+			return e.eval(n.k[1], b1)
+		}
+		return e.eval(n.k[2], b1+n.k[1].nl)
+	}
+	l := e.eval(n.k[0], base)
+	rb := base + n.k[0].nl
+	switch n.op {
+	case "and":
+		return sval{t: 'b', b: l.b && e.eval(n.k[1], rb).b}
+	case "or":
+		return sval{t: 'b', b: l.b || e.eval(n.k[1], rb).b}
+	}
+	r := e.eval(n.k[1], rb)
+	num := func(f float64) sval { return sval{t: 'i', f: f} }
+	boolean := func(b bool) sval { return sval{t: 'b', b: b} }
+	switch n.op {
+	case "+":
+		return num(l.f + r.f)
+	case "-":
+		return num(l.f - r.f)
+	case "*":
+		return num(l.f*r.f + 0)
+	case "%":
+		return num(math.Mod(l.f, r.f) + 0)
+	case "/":
+		q := l.f / r.f
+		if isNegZero(q) {
+			e.negZero = true
+		}
+		return num(q)
+	case "^":
+		q := math.Pow(l.f, r.f)
+		if isNegZero(q) {
+			e.negZero = true
+		}
+		return num(q)
+	case "~":
+		return sval{t: 's', s: l.String() + r.String()}
+	case "==", "!=":
+		eq := l.String() == r.String()
+		if l.t == 'i' {
+			eq = l.f == r.f
+		}
+		return boolean(eq == (n.op == "=="))
+	case "<":
+		return boolean(l.f < r.f)
+	case ">":
+		return boolean(l.f > r.f)
+	case "<=":
+		return boolean(l.f <= r.f)
+	case ">=":
+		return boolean(l.f >= r.f)
+	case "in", "not in":
+		found := false
+		for _, x := range r.l {
+			if float64(x) == l.f {
+				found = true
+			}
+		}
+		return boolean(found == (n.op == "in"))
+	case "starts with":
+		return boolean(strings.HasPrefix(l.s, r.s))
+	case "ends with":
+		return boolean(strings.HasSuffix(l.s, r.s))
+	case "matches":
+		return boolean(regexp.MustCompile(r.s[1 : len(r.s)-1]).MatchString(l.s))
+	}
+	panic("shadow: " + n.op)
+}
+
+// negativeZeroQuirk: what KF-C08-2 predicts for the tree, and whether its predicate holds.
+func (in *inst) negativeZeroQuirk() (string, bool) {
+	e := &shadow{leaves: in.leaves}
+	v := e.eval(in.root, 0)
+	return v.String(), e.negZero
 }
